@@ -21,7 +21,7 @@ ASSUMPTIONS = [
 ]
 
 KIND_OPS = ["const", "query", "add", "alias", "lowest", "draw", "accumulate", "pool", "pool_index", "pool_slice", "matmul_p",
-            "flatten", "roller", "annotate", "setitem", "delitem", "rejected", "query", "query", "query", "select"]
+            "flatten", "roller", "annotate", "setitem", "delitem", "rejected", "query", "query", "query", "select", "shorthand", "shorthand"]
 
 
 def gen_cases(rng, tier):
@@ -42,6 +42,9 @@ def gen_cases(rng, tier):
                 ops.append(["pool", r[:rng.randint(1, 3)]])
             elif k == "roller":
                 ops.append(["roller", r[:rng.randint(1, 2)], rng.randint(0, 5)])
+            elif k == "shorthand":
+                # H(n) for the same n in different numeric types: each construction is a new, independent object
+                ops.append(["shorthand", rng.choice([1, 2, 3, 3, 4, -2, 0]), rng.choice(["int", "int", "float", "Fraction", "bool", "npint"])])
             elif k == "select":
                 ops.append(["select", r[0], rng.choice(["tuple", "list", "iterator", "generator"]), rng.randint(0, 5)])
             elif k == "query":
@@ -93,6 +96,14 @@ def impl_run(case):
             if k == "const":
                 rop = ["const", op[1]]
                 res = ("H", H(gens.py_hist_dict(op[1])))
+            elif k == "shorthand":
+                import numpy
+                n = op[1]
+                typ = op[2] if (op[2] != "bool" or n in (0, 1)) else "int"
+                v = {"int": int, "float": float, "Fraction": Fraction, "bool": bool, "npint": numpy.int8}[typ](n)
+                items = [[gens.q(i), 1] for i in (range(1, n + 1) if n > 0 else range(n, 0))]
+                rop = ["const", items]
+                res = ("H", H(v))
             elif k == "add":
                 a, b = pick("H", op[1]), pick("H", op[2])
                 rop = ["add", a, b]
